@@ -119,7 +119,9 @@ pub const IT_ITER: u8 = 0;
 pub const IT_ITER_MUT: u8 = 1;
 pub const IT_REF_INTO: u8 = 2;
 pub const IT_MUT_INTO: u8 = 3;
-pub const IT_KINDS: u8 = 4;
+pub const IT_TYPED: u8 = 4; // typed view iter() (a slice iterator over the view's slice)
+pub const IT_TYPED_MUT: u8 = 5; // typed view iter_mut(); not Clone: the clone op degrades to len
+pub const IT_KINDS: u8 = 6;
 // iterator script ops
 pub const ITOP_NEXT: u8 = 0;
 pub const ITOP_NEXT_BACK: u8 = 1;
